@@ -132,6 +132,10 @@ func layoutCfg(mapping, modPrefix string) work.Cfg {
 		for _, f := range []string{"a", "b", "c", "z"} {
 			c.SchemaMappings = append(c.SchemaMappings, work.Mapping{SchemaID: id(f), PackageName: modPrefix + "/p" + f + "/model", OutputName: "p" + f + "/model/" + f + ".go"})
 		}
+	case "onepkg": // one package, one output file per schema
+		for _, f := range []string{"a", "b", "c", "z"} {
+			c.SchemaMappings = append(c.SchemaMappings, work.Mapping{SchemaID: id(f), PackageName: modPrefix + "/pone", OutputName: "pone/" + f + ".go"})
+		}
 	case "sharedsame", "shareddiff":
 		for _, f := range []string{"a", "b", "c", "z"} {
 			m := work.Mapping{SchemaID: id(f), PackageName: modPrefix + "/p" + f, OutputName: "p" + f + "/" + f + ".go"}
@@ -276,7 +280,7 @@ func RunLayouts(tier, rule string) int {
 	type cfgKey struct{ graph, mapping, dirs string }
 	var cfgs []cfgKey
 	for _, g := range []string{"none", "chain", "diamond", "cycle"} {
-		for _, m := range []string{"default", "own", "samebase", "sharedsame", "shareddiff", "pkgonly", "rootonly", "mixedflags"} {
+		for _, m := range []string{"default", "own", "samebase", "sharedsame", "onepkg", "shareddiff", "pkgonly", "rootonly", "mixedflags"} {
 			for _, d := range []string{"flat", "sub"} {
 				cfgs = append(cfgs, cfgKey{g, m, d})
 			}
